@@ -78,13 +78,13 @@ def brute_force(case, box=None):
         for rel, vs, pa in props:
             r = rel([vec[v] for v in vs], pa)
             if r is None:
-                und += 1
-                ok = None
-                break
-            if not r:
+                ok = None  # undecided unless another constraint rejects the point
+            elif not r:
                 ok = False
                 break
-        if ok:
+        if ok is None:
+            und += 1
+        elif ok:
             sols.append((pt, tuple(vec)))
     return sols, und
 
